@@ -477,6 +477,10 @@ func (c *Client) Mail(from string, opts *MailOptions) error {
 		// We can safely discard parameter if server does not support AUTH.
 	}
 	_, _, err := c.cmd(250, "%s", sb.String())
+	if err == nil {
+		// A new transaction starts without recipients.
+		c.rcpts = nil
+	}
 	return err
 }
 
